@@ -268,10 +268,10 @@ P("C01", lambda t: g_k2()[1:3] + g_k3() + g_p1() + [I("p2_layout")] + g_p3(t) + 
   + g_t1(t) + g_t2(t) + g_t3_lemma(t) + g_t4())
 P("C02", lambda t: g_k2() + g_p5() + g_p6() + [I("p7_load")] + g_t3_lemma(t) + g_t4())
 P("C03", lambda t: g_k2()[1:2] + g_k3() + g_p1() + [I("p2_layout")] + g_t4_meta() + (g_t4() if t == "thorough" else []))
-P("C04", lambda t: [I("k7_keygen"), I("k7_inject"), I("k8_crypt"), I("k9_create"), I("k4_birthday"), I("p7_load"), I("k7_keygen", flags=["--big-endian"])] + g_p5() + g_k3())
+P("C04", lambda t: [I("k7_keygen"), I("k7_inject"), I("k8_crypt"), I("k9_create"), I("k4_birthday"), I("p7_load"), I("k7_keygen", cfg="sb")] + g_p5() + g_k3())
 P("C05", lambda t: [I("k2_coin"), I("k2_eval"), I("p2_layout")] + g_p5() + g_p6())
-BE = ["--big-endian"]     # the codecs are byte-wise: re-run on CBMC's big-endian model
-P("C06", lambda t: [I("k6_store"), I("k6_load"), I("p7_load"), I("p7_store"), I("k6_store", flags=BE), I("k6_load", flags=BE)])
+# the codecs are byte-wise: re-run on CBMC's big-endian memory model (build configuration "sb")
+P("C06", lambda t: [I("k6_store"), I("k6_load"), I("p7_load"), I("p7_store"), I("k6_store", cfg="sb"), I("k6_load", cfg="sb"), I("p7_load", cfg="sb")])
 P("C07", lambda t: g_t4(selffind=(t == "thorough")) + g_t1(t) + g_t2(t) + g_t3_lemma(t))
 P("C08", lambda t: g_t1(t) + g_t1_long() + g_t2(t) + g_t3_lemma(t) + g_t4(selffind=(t == "thorough")) + g_p3(t) + g_p5() + g_p6())
 P("C09", lambda t: g_p4(t) + g_p5() + g_p6() + g_t1(t, rules=(0, 1)))
@@ -284,7 +284,7 @@ P("C12", lambda t: [I("k8_crypt"), I("k8_crypt", **K8_MID)] + ([I("k8_crypt", de
 P("C13", lambda t: g_api() + [I("k5_features"), I("k5_default"), I("k4_birthday"), I("p2_layout"), I("p6_auto")] + g_p5() + g_k3())
 P("C14", lambda t: g_p3(t) + g_p4(t) + g_t1_safety() + g_t1_long() + g_t1(t) + g_p5() + g_p6() + [I("p7_load"), I("k8_crypt")])
 P("C15", lambda t: [I("k9_create"), I("p7_load"), I("h_free"), I("h_inject")] + g_p5())
-P("C16", lambda t: [I("k8_crypt"), I("k9_create"), I("p2_layout"), I("p7_load"), I("h_free"), I("p6_wipe")] + g_p5())
+P("C16", lambda t: [I("k8_crypt"), I("k9_create"), I("p2_layout"), I("p7_load"), I("p7_store"), I("k7_keygen"), I("h_free"), I("p6_wipe")] + g_p5())
 P("C17", lambda t: g_c17(["ko", "jp", "fr"] if t == "quick" else LANGS) + g_p3(t) + [I("p2_layout")] + g_p5())
 P("C18", lambda t: [I("k9_create"), I("h_inject"), I("k7_keygen"), I("k8_crypt"), I("p7_load"), I("h_free")] + g_p5())
 def g_k_unsigned():
